@@ -181,6 +181,16 @@ func indTasks(r *core.Rand) []indTask {
 			return dig(o.Accepted, o.Ser, obsDigest(o.Val))
 		})
 	}
+	// an EncryptedLeaseSet under an ECDSA key: the library cannot build that verifier, so its Verify
+	// takes the failure path (deterministically) - next to sets that do verify
+	{
+		sc := signedELS(r, []int{1, 2}[r.Pick(2)], r.Chance(1, 2), 7)
+		p := lib.ByNameCached("encrypted_leaseset.ReadEncryptedLeaseSet")
+		add("verify/encleaseset-ecdsa", func() string {
+			o := p.Fn(append([]byte(nil), sc.bytes...))
+			return dig(o.Accepted, o.Ser, obsDigest(o.Val))
+		})
+	}
 	// near-collisions of the task above: the same signed content with a damaged signature, and cut
 	// inside the signature (whatever a successful verification leaves behind must not match these)
 	for k := 0; k < 2; k++ {
